@@ -371,9 +371,8 @@ func (s *State) evalNode(node any) object.Object { //nolint:funlen,gocognit,gocy
 
 func (s *State) evalPipe(left object.Object, right ast.Node) object.Object {
 	s.PipeVal = []byte(left.(object.String).Value)
-	res := s.evalInternal(right)
-	s.PipeVal = nil
-	return res
+	defer func() { s.PipeVal = nil }() // also when a panic unwinds through here.
+	return s.evalInternal(right)
 }
 
 func (s *State) evalIndexExpression(left object.Object, node *ast.IndexExpression) object.Object {
